@@ -1,7 +1,7 @@
 (* Dispatcher of the model side of the correspondence check:
    one case = a domain name and a list of generic arguments; the result is the
    canonical transcript (one string per line). *)
-Require Import Bytes Outcome Render Common TagType RunCommon RunMbi RunHeader.
+Require Import Bytes Outcome Render Layout Common TagType UserTypes RunCommon RunMbi RunMbiFull RunHeader RunBuild.
 From Coq Require Import String.
 Open Scope string_scope.
 
@@ -24,14 +24,36 @@ Definition run_case (pn : N) (dom : string) (args : list arg) : list string :=
   else if dom =? "magic" then run_magic
   else if dom =? "mbiwalk" then
     match args with [AB bs] => run_mbi_walk p bs | _ => bad end
+  else if dom =? "mbi" then
+    match args with [AB bs] => run_mbi p bs | _ => bad end
   else if dom =? "mbinull" then run_mbinull p
   else if dom =? "iters" then
     match args with [AB bs; AL ops] => run_iters p bs ops | _ => bad end
   else if dom =? "hdrwalk" then
     match args with [AB bs] => run_hdr_walk p bs | _ => bad end
+  else if dom =? "hdr" then
+    match args with [AB bs] => run_hdr p bs | _ => bad end
   else if dom =? "hdrnull" then run_hdrnull p
   else if dom =? "find" then
     match args with [AN a; AB bs] => run_find p a bs | _ => bad end
   else if dom =? "cksum" then
     match args with [AN m; AN a; AN l] => run_cksum m a l | _ => bad end
+  else if dom =? "cast" then
+    match args with
+    | [AN 0; AN k; AB bs] => run_cast p (user_sized k) bs
+    | [AN 1; AN F; AN es; AN ea; AB bs] => run_cast p (user_dst F es ea) bs
+    | _ => bad
+    end
+  else if dom =? "ctor" then
+    match args with AN id :: rest => run_ctor p id rest | _ => bad end
+  else if dom =? "hctor" then
+    match args with AN id :: AN place :: rest => run_hctor p id place rest | _ => bad end
+  else if dom =? "build" then
+    match args with [AL calls] => run_build p calls | _ => bad end
+  else if dom =? "hbuild" then
+    match args with [AN arch; AL calls] => run_hbuild p arch calls | _ => bad end
+  else if dom =? "newboxed" then
+    match args with [AN h; AB hdr; AL slices] => run_newboxed p (hkind_of h) hdr slices | _ => bad end
+  else if dom =? "clone" then
+    match args with AN id :: rest => run_clone p id rest | _ => bad end
   else ["BADDOMAIN"].
